@@ -790,6 +790,53 @@ func c13Std(c *Config, ic *IC, r *Report, stdlibPk *packages.Package, tb map[str
 		r.Fail("R13.5", "os.Args", "", "fixStdlib does not re-bind os.Args: scripts see the host's arguments")
 	}
 	c13PrintBuiltins(ic, r)
+	c13ArgsDefault(ic, r)
+}
+
+// c13ArgsDefault: the host's os.Args are used only when Options.Args is nil.
+func c13ArgsDefault(ic *IC, r *Report) {
+	fi := ic.F["New"]
+	if fi == nil {
+		return
+	}
+	argsFld := ic.field("opt", "args")
+	found := false
+	ast.Inspect(fi.Decl.Body, func(n ast.Node) bool {
+		as, ok := n.(*ast.AssignStmt)
+		if !ok || len(as.Lhs) != 1 || len(as.Rhs) != 1 || selField(ic.Info, as.Lhs[0]) != argsFld || argsFld == nil {
+			return true
+		}
+		obj := qualifiedObj(ic.Info, as.Rhs[0])
+		if obj == nil || obj.Pkg() == nil || obj.Pkg().Path() != "os" || obj.Name() != "Args" {
+			return true
+		}
+		found = true
+		// guard: nearest enclosing if whose condition is <args> == nil
+		okGuard := false
+		cond := ""
+		p := enclosingPath(fi.Decl.Body, as)
+		for i := len(p) - 1; i >= 0; i-- {
+			ifs, ok := p[i].(*ast.IfStmt)
+			if !ok {
+				continue
+			}
+			cond = types.ExprString(ifs.Cond)
+			if be, ok := unparen(ifs.Cond).(*ast.BinaryExpr); ok && be.Op == token.EQL {
+				if id, ok := unparen(be.Y).(*ast.Ident); ok && id.Name == "nil" {
+					if v := selField(ic.Info, be.X); v != nil && (v == argsFld || v.Name() == "Args") {
+						okGuard = true
+					}
+				}
+			}
+			break
+		}
+		r.Check(okGuard, "R13.5", "New/args-default", ic.pos(as.Pos()), "the host's os.Args are used only when Options.Args is nil",
+			"New falls back to the host's os.Args under the condition "+cond+" rather than only when Options.Args is nil: an explicitly empty argument list exposes (and shares the backing array of) the host's command line")
+		return true
+	})
+	if !found {
+		r.Pass("R13.5", "New/args-default", ic.pos(fi.Decl.Pos()), "New never falls back to the host's os.Args")
+	}
 }
 
 func c13FmtOverrides(ic *IC, r *Report, ovMap map[string]override) {
